@@ -196,7 +196,11 @@ func runMeasure(e *simcore.Env, tp *simcore.Tape) {
 					}
 					req.Agg = &measurev1.QueryRequest_Aggregation{Function: fn, FieldName: f.Name}
 					desc = fmt.Sprintf("range[%d,%d] %s(%s) group by %v", a, b, fn, f.Name, gt)
-					if len(gt) > 0 && tp.Bool(1, 3) {
+					if len(gt) > 0 && tp.Side().Bool(1, 4) { // group-by WITHOUT an aggregation: the first row of every group
+						req.Agg = nil
+						desc = fmt.Sprintf("range[%d,%d] group by %v (no aggregation)", a, b, gt)
+					}
+					if len(gt) > 0 && tp.Bool(1, 3) && req.Agg != nil {
 						req.Top = &measurev1.QueryRequest_Top{Number: int32(tp.Range(1, 3)), FieldName: f.Name, FieldValueSort: []modelv1.Sort{modelv1.Sort_SORT_DESC, modelv1.Sort_SORT_ASC}[tp.Choose(2)]}
 						desc += fmt.Sprintf(" top %d %s", req.Top.Number, req.Top.FieldValueSort)
 					}
@@ -269,6 +273,8 @@ func runMeasure(e *simcore.Env, tp *simcore.Tape) {
 			shape := "plain"
 			if reqs[i].Agg != nil {
 				shape = "aggregate"
+			} else if reqs[i].GroupBy != nil {
+				shape = "group-by-only"
 			} else if reqs[i].OrderBy != nil {
 				shape = "ordered"
 			}
